@@ -101,7 +101,8 @@ def all_matches(mods, pattern, source):
 def run_subn(mods, pattern, repl, source, count):
     """pattern_matching.subn with every intermediate product recorded."""
     core, processing, pm = mods["core"], mods["processing"], mods["pattern_matching"]
-    rec = {"items": [], "sched": None, "chain": [], "valid": {}, "equiv": {}, "minws_changed": False, "error": None}
+    rec = {"items": [], "sched": None, "chain": [], "valid": {}, "equiv": {}, "minws_changed": False, "error": None,
+           "filled": [], "tok_calls": []}
 
     def recording(func):
         import functools
@@ -155,7 +156,23 @@ def run_subn(mods, pattern, repl, source, count):
             return out
         return minimize_whitespace_line_differences
 
+    def mk_fill(orig):
+        def format_template(*a, **kw):
+            out = orig(*a, **kw)
+            rec["filled"].append(out)
+            return out
+        return format_template
+
+    def mk_tok(orig):
+        def _lines_inside_string_literals(code):
+            rec["tok_calls"].append(code)
+            return orig(code)
+        return _lines_inside_string_literals
+
     with Instr(mods) as ins, common.quiet():
+        ins.wrap(core, "format_template", mk_fill)
+        if hasattr(processing, "_lines_inside_string_literals"):
+            ins.wrap(processing, "_lines_inside_string_literals", mk_tok)
         ins.wrap(processing, "_schedule_rewrites", mk_schedule)
         ins.wrap(processing, "_do_rewrite", mk_do_rewrite)
         ins.wrap(core, "is_valid_python", mk_valid)
@@ -174,6 +191,11 @@ def run_subn(mods, pattern, repl, source, count):
     rec["out"], rec["n"] = out, n
     if rec["sched"] is None:
         rec["sched"] = []
+    # the model's splice asks the tokenizer (strl) about every instantiated replacement: where that text has a
+    # line inside a string literal (by OUR tokenizer pass) the real code must have asked about exactly that text
+    import textwrap
+    rec["tok_missing"] = [d for d in dict.fromkeys(textwrap.dedent(f) for f in rec["filled"])
+                          if string_literal_lines(d) and d not in rec["tok_calls"]]
     # _substitute_original_strings calls _do_rewrite too: the scheduled rewrites are the first calls
     # (since the application step skips members that change nothing / refuses whitespace-only transactions, the
     # scheduled calls are recognised by their scheduled=True flag where the implementation passes one)
@@ -439,6 +461,69 @@ def expected_applied(ms, source, count):
     return [first[i] for i in idx]
 
 
+def template_holes(repl):
+    """Wildcard names that are nodes of the replacement template (not text inside one of its literals), with
+    multiplicity; None when the template does not parse on its own."""
+    try:
+        body = _template_tree(repl, "stmt") if repl.strip() else []
+    except (SyntaxError, ValueError):
+        return None
+    names = []
+    for st in body:
+        for n in ast.walk(st):
+            if isinstance(n, ast.Name):
+                m = re.fullmatch(HOLE % r"(\w+)", n.id)
+                if m:
+                    names.append(m.group(1))
+    return names
+
+
+def _string_constants(node):
+    return Counter((type(n.value).__name__, n.value) for n in ast.walk(node)
+                   if isinstance(n, ast.Constant) and isinstance(n.value, (str, bytes)))
+
+
+def binding_constants_clause(repl, want, out):
+    """What a wildcard is bound to reaches the output unchanged: every string / bytes constant of a node bound to a
+    wildcard of the replacement template is a constant of the output, as often as the template uses the wildcard
+    (over all applied matches), and a bound STATEMENT is a statement of the output with the same ast.dump.
+    Independent of the reference tree: only the matcher's bindings and the parse of the output are used."""
+    holes = template_holes(repl)
+    if not holes or not want:
+        return []
+    try:
+        out_tree = ast.parse(out)
+    except SyntaxError:
+        return []       # judged by the tree clause
+    need, stmts = Counter(), []
+    for (rng, _, groups) in want:
+        d = groups_dict(groups)
+        for name in holes:
+            node = d.get(name)
+            for nd in (node if isinstance(node, (list, tuple)) else [node]):
+                if isinstance(nd, ast.AST):
+                    need.update(_string_constants(nd))
+                    if isinstance(nd, ast.stmt):
+                        stmts.append((name, nd))
+    have = _string_constants(out_tree)
+    probs = []
+    lost = [k for k in need if have[k] < need[k]]
+    if lost:
+        near = sorted((v for (_, v) in have if v not in {x for (_, x) in need}), key=repr)
+        probs.append({"clause": "binding-constants",
+                      "detail": f"string constant(s) {[v for (_, v) in lost]!r} of a bound node are not constants of the "
+                                f"output {out!r} (constants only in the output: {near[:4]!r})"})
+    if stmts:
+        dumps = {ast.dump(n) for n in ast.walk(out_tree) if isinstance(n, ast.stmt)}
+        for (name, nd) in stmts:
+            if ast.dump(nd) not in dumps:
+                probs.append({"clause": "binding-constants",
+                              "detail": f"the statement bound to {{{{{name}}}}} ({ast.unparse(nd)[:200]!r}) is not a "
+                                        f"statement of the output {out!r} (ast.dump)"})
+                break
+    return probs
+
+
 def property_oracle(mods, pattern, repl, source, count, rec=None) -> list[dict]:
     """All clauses of C14 on one input, judged on the value sub()/subn() returned."""
     probs = []
@@ -486,6 +571,7 @@ def property_oracle(mods, pattern, repl, source, count, rec=None) -> list[dict]:
             probs.append({"clause": "untouched-lines", "detail": f"{out!r}"})
     elif out != source and not untouched_preserved(source, out, ranges):
         probs.append({"clause": "untouched-lines", "detail": f"{out!r}"})
+    probs += binding_constants_clause(repl, want, out)
     if pattern == repl:
         try:
             same = dump_norm(out) == dump_norm(source)
@@ -653,7 +739,28 @@ def sig_comment_ends_replacement(mods, case) -> bool:
     return False
 
 
-SIGS = {"binding_precedence_lost": sig_binding_precedence_lost,
+def sig_compound_binding_shares_line(mods, case) -> bool:
+    """A wildcard of the replacement template shares its template line with other code and an expected match binds
+    it to a compound statement (which cannot follow `;` or other text on a line)."""
+    shared = set()
+    for line in case["repl"].split("\n"):
+        for m in re.finditer(r"\{\{(\w+)\}\}", line):
+            rest = (line[:m.start()] + line[m.end():]).strip()
+            if rest and not rest.startswith("#"):
+                shared.add(m.group(1))
+    if not shared:
+        return False
+    for (_, _, groups) in _expected(mods, case):
+        d = groups_dict(groups)
+        for name in shared:
+            nd = d.get(name)
+            if isinstance(nd, ast.stmt) and isinstance(getattr(nd, "body", None), list):
+                return True
+    return False
+
+
+SIGS = {"compound_binding_shares_line": sig_compound_binding_shares_line,
+        "binding_precedence_lost": sig_binding_precedence_lost,
         "replacement_precedence_lost": sig_replacement_precedence_lost,
         "string_line_trailing_blank": sig_string_line_trailing_blank,
         "fstring_debug_specifier": sig_fstring_debug_specifier,
@@ -661,7 +768,7 @@ SIGS = {"binding_precedence_lost": sig_binding_precedence_lost,
         "statement_shares_line": sig_statement_shares_line,
         "comment_ends_replacement": sig_comment_ends_replacement}
 SITES = {SITE_FORMAT, "processing.find_replace", "core.has_ignore_comment", "processing._do_rewrite"}
-EXPLAINABLE = {"tree", "self-substitution", "ignore", "untouched-lines"}
+EXPLAINABLE = {"tree", "self-substitution", "ignore", "untouched-lines", "binding-constants"}
 
 
 def match_finding(mods, findings, case, probs):
@@ -999,6 +1106,106 @@ def hunt_family():
                 yield (pat, repl, src, 0)
 
 
+# ------------------------------------------------------------------------------------------------
+# round 5 family (seed C14-d): binding shape x template shape x match position.  What a wildcard is bound
+# to (expression / simple statement / compound statement; with and without a string literal that spans
+# lines: multi-line docstring of a def / class, multi-line string argument, backslash-continued literal,
+# f-string over lines) x where the wildcard stands in the replacement template (alone on its line, indented
+# inside a block of the template, after other text; template with / without a multi-line literal of its own)
+# x the indentation of the line the match starts on (0, 4, 8, one tab).  Each binding is written at
+# indentation 0, relative to the statement that holds it.
+
+STMT_BINDINGS = [
+    # simple statements
+    "y = 2",
+    "y = h('''a\n  b\n''', 1)",                      # multi-line string argument
+    "y = 'a\\\n  b'",                              # backslash-continued literal
+    "y = f'''x{z}\n  w'''",                         # f-string over lines
+    # compound statements
+    "for i in z:\n    p(i)",
+    "def dump(self):\n    'One line.'\n    return 1",
+    "def dump(self):\n    \"\"\"Dump the state.\n\n    Usage:\n        dump()\n    \"\"\"\n    return 1",
+    "class Config:\n    \"\"\"Settings.\n\n    key = value\n    \"\"\"\n    x = 1",
+    "class Config:\n    \"\"\"Settings.\n      more\n    \"\"\"\n    def get(self):\n        \"\"\"Get.\n\n        it\n        \"\"\"\n        return 0",
+    "async def dump():\n    '''a\nb'''\n    return 1",     # continuation line at column 0 of the file
+    "def dump():\n    y = h('''a\n  b\n''', 1)\n    return y",
+    "while q:\n    y = f'''x{z}\n  w'''\n    break",
+]
+STMT_BINDING_RULES = [
+    # (pattern, replacement templates)
+    ("if DEBUG:\n    {{stmt}}", [
+        "{{stmt}}",                                               # alone on its line
+        "if not DEBUG:\n    {{stmt}}",                            # indented inside a block of the template
+        "if DEBUG:\n    if more:\n        {{stmt}}\n    done()",  # two levels; text after it
+        "pass; {{stmt}}",                                         # after other text
+        "s = '''k\n  l'''\n{{stmt}}",                             # template with a multi-line literal of its own
+        "if DEBUG:\n    s = '''k\n  l'''\n    {{stmt}}",
+        "{{stmt}}\ns = h('''k\n  l''')",
+    ]),
+    ("try:\n    {{stmt}}\nexcept Exception:\n    raise", [
+        "{{stmt}}",
+        "try:\n    {{stmt}}\nfinally:\n    done()",
+        "s = '''k\n  l'''\n{{stmt}}",
+    ]),
+]
+EXPR_BINDINGS = [
+    "1 + 2",
+    "'''a\n  b\n'''",
+    "'a\\\n  b'",
+    "f'''x{z}\n  w'''",
+    "h('''a\n  b''', [1,\n  2])",
+    "lambda: '''a\n  b'''",
+]
+EXPR_BINDING_RULES = [
+    ("f({{e}})", [
+        "g({{e}})",
+        "{{e}}",
+        "g(\n    {{e}}\n)",                     # indented inside the template
+        "h(0, {{e}})",                          # after other text
+        "h('''k\n  l''', {{e}})",               # template with a multi-line literal of its own
+        "h(\n    '''k\n  l''',\n    {{e}})",
+    ]),
+]
+# the line of the match at indentation 0 / 4 / 8 / one tab: (prefix lines, indentation, suffix lines)
+MATCH_POSITIONS = [
+    ("import os\n", "", "print(1)\n"),
+    ("class Client:\n    name = 'c'\n\n", "    ", "\n    def other(self):\n        return 1\n"),
+    ("def make():\n    for _ in range(1):\n", "        ", "    return 1\n"),
+    ("class Client:\n\tname = 'c'\n", "\t", "\tother = 2\n"),
+]
+
+
+def _at(indentation, text, unit="    "):
+    """The statement text (written at indentation 0 with 4-blank levels) on lines indented by `indentation`;
+    lines that begin inside a string literal are content and stay as they are."""
+    inside = set(string_literal_lines(text))
+    out = []
+    for i, line in enumerate(text.split("\n")):
+        if i in inside or not line.strip():
+            out.append(line)
+        else:
+            k = (len(line) - len(line.lstrip(" "))) // 4
+            out.append(indentation + unit * k + line.lstrip(" "))
+    return "\n".join(out)
+
+
+def binding_family(positions=MATCH_POSITIONS):
+    for (pre, ind, post) in positions:
+        unit = "\t" if ind == "\t" else "    "
+        for (pat, repls) in STMT_BINDING_RULES:
+            for b in STMT_BINDINGS:
+                # code lines of the binding go into the slot, lines inside its literals stay as written
+                block = _at(ind, pat.replace("    {{stmt}}", _at("    ", b)), unit)
+                for repl in repls:
+                    yield (pat, repl, pre + block + "\n" + post, 0)
+        for (pat, repls) in EXPR_BINDING_RULES:
+            for e in EXPR_BINDINGS:
+                for stmt in ("x = " + pat.replace("{{e}}", e), "if c:\n    y = " + pat.replace("{{e}}", e) + " + 1"):
+                    block = _at(ind, stmt, unit)
+                    for repl in repls:
+                        yield (pat, repl, pre + block + "\n" + post, 0)
+
+
 def fixed_family(with_comments=False):
     """Seed-independent small-scope family: every pattern x every replacement of its kind x the fixed
     sources x count in {0, 1, 2}."""
@@ -1089,10 +1296,13 @@ def wrap_ranges(source, rec):
 def g_subn_case(case, ms, rec, mods=None) -> str:
     pat, repl, source, count = case
     mods = mods or common.import_impl()
-    yielded = dict(rec["items"]) if not rec["error"] else {}
-    matches = glist([f"({g_range(rng)}, {g_binds(b)}, "
-                     f"{glist([f'{i}%nat' for i in string_literal_lines(yielded.get(rng, '')) if i > 0])})"
-                     for (rng, b, _) in ms])
+    import textwrap
+    matches = glist([f"({g_range(rng)}, {g_binds(b)})" for (rng, b, _) in ms])
+    # the tokenizer's answers (our own pass) about every text the model may ask about: the unparsed bindings and
+    # the instantiated, dedented replacements
+    asked = [v for (_, b, _) in ms for v in b.values() if "\n" in v] + [textwrap.dedent(f) for f in rec["filled"]]
+    strl = glist([f"({gtext(t)}, {glist([f'{i}%nat' for i in string_literal_lines(t)])})"
+                  for t in dict.fromkeys(asked) if string_literal_lines(t)])
     valid = glist([f"({gtext(t)}, {gbool(v)})" for t, v in rec["valid"].items()])
     if rec["error"]:
         items = "None"
@@ -1107,7 +1317,7 @@ def g_subn_case(case, ms, rec, mods=None) -> str:
     wraps = glist([g_range(r) for r in wrap_ranges(source, rec)])
     texts = {t for (_, _, a, b, t) in rec["sched"]} | {source[a:b] for (_, _, a, b, _) in rec["sched"]}
     mlstr = glist([gtext(t) for t in sorted(texts) if string_literal_lines(t)])
-    return (f"(mkSubn {gtext(source)} {gtext(repl)} {gz(count)} {matches} {valid} {equiv} {wraps} {mlstr} {coms} {il} {probes} "
+    return (f"(mkSubn {gtext(source)} {gtext(repl)} {gz(count)} {matches} {valid} {equiv} {wraps} {mlstr} {strl} {coms} {il} {probes} "
             f"{items} "
             f"{sched} {gtext(rec['cand'])} {gz(n)})")
 
@@ -1379,6 +1589,7 @@ WITNESSES = {
     "F14-8": [("x", "y", "f'{x=}'\n", 0)],
     "F14-9": [("if {{c}}:\n    {{b}}", "if not {{c}}:\n    {{b}}", "if a:\n    p()\nelif b:\n    q()\n", 0)],
     "F14-19": [("x = {{a}}", "y = {{a}}", "x = \'\'\'a \nb\'\'\'\n", 0)],
+    "F14-21": [("if DEBUG:\n    {{stmt}}", "pass; {{stmt}}", "if DEBUG:\n    for i in z:\n        p(i)\n", 0)],
 }
 
 
@@ -1640,13 +1851,16 @@ def check(run: common.Run):
             yield c
     cases += list(prune(fixed_family(with_comments=True)))
     cases += list(prune(dict.fromkeys(hunt_family())))
+    # (in the correspondence only the positions with indentation to add: 4 and 8 blanks; tabs are outside the
+    # model's text domain; the sweep below runs all four)
+    cases += list(dict.fromkeys(binding_family(MATCH_POSITIONS[1:3])))
     n_fixed = len(cases) - n_corpus
     gen = Gen(rnd)
     n_rand = 1500 if quick else 40000
     cases += [gen.case() for _ in range(n_rand)]
 
     rows, kept, hist = [], [], Counter()
-    crashes, outside, minws_cases, restore_bad = [], 0, [], []
+    crashes, outside, minws_cases, restore_bad, tok_missing = [], 0, [], [], []
     distinct = set()
     sources_seen = set()
     for c in cases:
@@ -1673,6 +1887,10 @@ def check(run: common.Run):
                     same = False
             if not same:
                 restore_bad.append(src)
+        if rec["tok_missing"]:
+            tok_missing.append((c, rec["tok_missing"]))
+        if any(string_literal_lines(f) for f in rec["filled"]):
+            hist["instantiated replacement has a line inside a string literal"] += 1
         hist[f"matches={min(len(ms), 6)}{'+' if len(ms) > 6 else ''}"] += 1
         hist[f"applied={min(len(rec['sched']), 6)}"] += 1
         hist["count=%s" % ("0" if count <= 0 else count)] += 1
@@ -1731,8 +1949,8 @@ def check(run: common.Run):
         edis += [k + i for i in idx]
 
     # ---------------- deterministic sweep: the property oracle on the fixed family + corpus ---------
-    sweep = [c for (_, c) in corpus] + list(prune(fixed_family())) + list(prune(dict.fromkeys(hunt_family()))) \
-        + minws_cases
+    sweep = [c for (_, c) in corpus] + list(dict.fromkeys(binding_family())) + list(prune(fixed_family())) \
+        + list(prune(dict.fromkeys(hunt_family()))) + minws_cases
     sweep = list(dict.fromkeys(sweep))
     sweep_fail, by_finding = [], {}
     for c in sweep:
@@ -1784,11 +2002,11 @@ def check(run: common.Run):
         run.violation({"kind": "assumption", "source": src,
                        "explanation": "_substitute_original_(f)strings(s, s) != s: hypothesis of T14.1 does not "
                                       "hold for this source"}, True)
-    need_search = bool(disagreements or edis or eval_failed or eproblems
+    need_search = bool(disagreements or edis or eval_failed or eproblems or tok_missing
                        or (ps.get("props") and not ps["props"]["ok"]) or not ps.get("build_ok", True))
     found = None
     if need_search and not sweep_fail and not crashes:
-        seeds_cases = [kept[i][0] for i in disagreements[:20]]
+        seeds_cases = [c for (c, _) in tok_missing[:10]] + [kept[i][0] for i in disagreements[:20]]
         found = failing_input_search(mods, run, seeds_cases, findings, budget=1500 if quick else 8000)
         if found:
             run.violation({"kind": "property-oracle", "case": [found["pattern"], found["repl"], found["source"],
@@ -1797,6 +2015,13 @@ def check(run: common.Run):
                            "explanation": "sub()/subn() violates C14 on this input"}, True)
     has_input = bool(found or sweep_fail or crashes)
     if not has_input:
+        for (c, texts) in tok_missing[:2]:
+            run.violation({"kind": "correspondence", "kernel": "K13 SubstModel.place_replacement (find_replace)",
+                           "case": list(c), "not_asked_about": texts[:3],
+                           "explanation": "the instantiated replacement has a line that begins inside a string literal, "
+                                          "but find_replace never asked processing._lines_inside_string_literals about "
+                                          "that text (the model's splice consults the tokenizer on every instantiated "
+                                          "replacement: T14.10); the property oracle found no failing input"}, False)
         for i in disagreements[:4]:
             c, ms, rec = kept[i]
             global PACKED
@@ -1865,7 +2090,7 @@ def check(run: common.Run):
         histogram=dict(hist), grammar=dict(estats),
         sweep={"cases": len(sweep), "explained_by_finding": {k: len(v) for k, v in by_finding.items()},
                "unexplained": len(sweep_fail)},
-        correspondence_disagreements=len(disagreements) + len(edis),
+        correspondence_disagreements=len(disagreements) + len(edis) + len(tok_missing),
         trusted_base=common.TRUSTED_BASE_COMMON + [
             "the matcher (core.walk_wildcard / walk_sequence / get_charnos) is NOT part of this property: its "
             "matches are inputs of the model (properties C12 / C13)",
